@@ -102,3 +102,5 @@ pub proof fn lemma_ffilter_none(w: Seq<Factor>, k: Keep, c: Carrier, s: Source, 
 {
     if keep_key(k, c, s, d) { lemma_ffilter_find(w, k, c, s, d, st); } else { lemma_ffilter_drop(w, k, c, s, d, st); }
 }
+/// the set has some factor of carrier c
+pub open spec fn carrier_in(w: Seq<Factor>, c: Carrier) -> bool { exists|j: int| 0 <= j < w.len() && (#[trigger] w[j]).carrier == c }
